@@ -58,8 +58,8 @@ class Pool:
         r = self.rng
         ch = ch or r.choice('xyz')
         mid = r.choice([1e5, -1e5, 2e5, first, last, 0.5 * (first + last)])
-        n1 = r.choice([10, 20, 30])
-        n2 = n1 + r.choice([10, 20, 40])
+        n1 = r.choice([10, 20, 30, 10, 20, 30, 1, 2])     # also corners one or two raster steps apart
+        n2 = n1 + r.choice([10, 20, 40, 1])
         if dur is not None:
             n2 = max(2, int(round(dur / RASTER)))
             n1 = max(1, n2 // 2)
